@@ -111,6 +111,7 @@ func judgeProv(c ProvCase) *eng.Fail {
 
 func parseOperand(s string) ref.Dec {
 	s = strings.TrimSuffix(strings.TrimPrefix(s, "("), ")")
+	s = strings.Replace(s, "_", "", -1) // separators are not part of the number
 	d, ok := ref.ParseDec(s)
 	if !ok {
 		panic("harness: bad operand " + s)
@@ -470,6 +471,44 @@ func runC04(w *eng.W) {
 			}
 		})
 	})
+	// spellings: the same operand written with separators, upper-case E, explicit plus, leading and
+	// trailing zeros must be the same number (compared inside the language and by value)
+	spell := func(coef string, exp int) []string {
+		sep := coef
+		if len(coef) > 1 {
+			sep = coef[:1] + "_" + coef[1:]
+		}
+		if len(coef) > 4 {
+			sep = coef[:2] + "_" + coef[2:len(coef)-1] + "_" + coef[len(coef)-1:]
+		}
+		sign := ""
+		if exp >= 0 {
+			sign = "+"
+		}
+		return []string{
+			fmt.Sprintf("%se%d", sep, exp), fmt.Sprintf("%sE%s%d", coef, sign, exp), fmt.Sprintf("%s_0e%d", coef, exp-1), fmt.Sprintf("00%s.000e%d", coef, exp),
+			fmt.Sprintf("%s.0_0E%d", sep, exp), fmt.Sprintf("0.%se%d", coef, exp+len(coef)), fmt.Sprintf(".%s_0e%s%d", coef, sign, exp+len(coef)),
+		}
+	}
+	for ci, coef := range gridCoefficients() {
+		if !w.Take() {
+			continue
+		}
+		for _, exp := range []int{-30, -3, -1, 0, 2, 30} {
+			canon := fmt.Sprintf("%se%d", coef, exp)
+			for _, alt := range spell(coef, exp) {
+				for _, op := range []string{"+", "-", "*"} {
+					w.State(1)
+					w.Trans(1)
+					w.Trace(1)
+					w.Note("leg:spellings", 1)
+					c := ArithCase{X: alt, Op: op, Y: []string{"0e0", "1e0", canon}[ci%3]}
+					w.Sample("spellings", c)
+					c04Arith.Do(w, c)
+				}
+			}
+		}
+	}
 	// provenance: integer-valued operands that arrive as results of builtins, host functions, locals
 	provVals := []string{"7e0", "2e0", "3000000000000000000000000000000001e0", "1e0", "(-5e0)", "9007199254740993e0"}
 	provYs := []string{"3e0", "7e0", "(-3e0)", "6e0", "1000000000000000000000001e-24", "9999999999999999999999999999999999e0", "2e0"}
